@@ -446,7 +446,7 @@ func TestC13(t *testing.T) {
 			}
 		}
 	}
-	reps := rec.N(4, 40)
+	reps := rec.N(4, 200)
 	rec.Suite("client-scripts", len(scripts)*reps, func(c *ev.Case) {
 		sc := scripts[c.I%len(scripts)]
 		c.Class("N=%d/%s/%s/W>R=%v", sc.N, aNames[sc.pattern], sNames[sc.schedule], sc.W > sc.R)
@@ -455,7 +455,7 @@ func TestC13(t *testing.T) {
 			c.Fail(ev.Sig{"op": "bubble-leak", "pattern": aNames[sc.pattern], "schedule": sNames[sc.schedule]}, nil, nil, "goroutines left blocked after the scenario: %s; %s", leak, sc.String())
 		}
 	})
-	rec.Suite("server-dwr-concurrent", rec.N(40, 2000), func(c *ev.Case) {
+	rec.Suite("server-dwr-concurrent", rec.N(40, 20000), func(c *ev.Case) {
 		K := 2 + c.I%5
 		c.Class("server-dwr-concurrent/K=%d", K)
 		leak := runBubbleWD(t, rec, c, 60*time.Second, func() { runC13Concurrent(c, ctx, K, 40) })
@@ -463,7 +463,7 @@ func TestC13(t *testing.T) {
 			c.Fail(ev.Sig{"op": "bubble-leak", "role": "server"}, nil, nil, "goroutines left blocked after the scenario: %s", leak)
 		}
 	})
-	rec.Suite("server-dwr", rec.N(64, 2000), func(c *ev.Case) {
+	rec.Suite("server-dwr", rec.N(64, 40000), func(c *ev.Case) {
 		c.Class("server-dwr/variant=%d", c.I%8)
 		leak := runBubbleWD(t, rec, c, 60*time.Second, func() { runC13Server(c, ctx, c.I%8) })
 		if leak != "" && !c.Failed() {
